@@ -186,8 +186,7 @@ def gen_value(rng, depth, maxdepth, stats, in_container=False):
         v = gen_numeric_seq(rng)
         return tuple(v) if rng.random() < 0.4 else v
     if c == "misc":
-        # rng generators inside containers are exercised by the kind matrix only (see C01 findings)
-        return build_kind("logger:python" if in_container else _MISC_KINDS[int(rng.integers(len(_MISC_KINDS)))], rng)
+        return build_kind(_MISC_KINDS[int(rng.integers(len(_MISC_KINDS)))], rng)
     if c == "heavy":
         if stats.get("heavy", 0) >= 1 or in_container:
             return None
